@@ -92,6 +92,8 @@ type Frame struct {
 	frameRefs  map[string][]Term
 	frameAll   bool
 	parent     *Frame
+	siteChan    ssa.Value // channel operand of the select case being visited
+	keepRegions map[string]bool // protected regions preserved by the call being processed
 	localCells map[string][]Term // region -> refs of non-escaping local cells (Alloc) of this frame
 }
 
@@ -780,12 +782,30 @@ func (f *Frame) enterLoop(li *loopInfo, st *State) *State {
 		f.env[phi] = Value{T: t, Ty: phi.Type()}
 		f.u.assume(hst.reach, f.u.wf(t, phi.Type(), hst.wm))
 	}
+	loopKeep := f.loopPreserved(li)
 	for _, r := range f.loopWrites(li) {
 		s, ok := f.u.rsorts[r]
-		if !ok {
+		if !ok || loopKeep[r] {
 			continue
 		}
-		hst.heap[r] = f.u.sc.fresh("Lh"+fmt.Sprint(li.k)+"_"+sanitize(r), s)
+		nh := f.u.sc.fresh("Lh"+fmt.Sprint(li.k)+"_"+sanitize(r), s)
+		// private cells (non-escaping locals, private captured variables) that the loop body
+		// does not store to directly keep their value
+		if strings.HasPrefix(r, "C_") {
+			direct := f.loopDirectCellStores(li)
+			old := f.u.heapGet(st.heap, r)
+			es := strings.TrimSuffix(strings.TrimPrefix(s, "(Array Int "), ")")
+			for fr := f; fr != nil; fr = fr.parent {
+				for _, ref := range fr.localCells[r] {
+					if direct[ref.S] {
+						continue
+					}
+					nh = mk(nh.Sort, "store", nh, ref, mk(es, "select", old, ref))
+				}
+			}
+			nh = f.u.freshDef("h", nh)
+		}
+		hst.heap[r] = nh
 	}
 	nwm := f.u.sc.fresh("wm", SInt)
 	f.u.assume(hst.reach, mk(SBool, ">=", nwm, hst.wm))
@@ -1136,4 +1156,74 @@ func isConstOrParam(v ssa.Value) bool {
 
 func shortTypeName(t types.Type) string {
 	return sanitize(types.TypeString(t, func(p *types.Package) string { return p.Name() }))
+}
+
+// loopPreserved: protected regions that no call inside the loop can modify and that the
+// loop body does not store to directly.
+func (f *Frame) loopPreserved(li *loopInfo) map[string]bool {
+	if len(f.u.eng.protected) == 0 {
+		return nil
+	}
+	keep := map[string]bool{}
+	for r := range f.u.eng.protected {
+		keep[r] = true
+	}
+	for b := range li.blocks {
+		for _, ins := range b.Instrs {
+			switch x := ins.(type) {
+			case *ssa.Store:
+				for _, r := range f.regionsOfPointer(x.Addr) {
+					delete(keep, r)
+				}
+			case ssa.CallInstruction:
+				p := f.u.eng.preservedBy(f.fn, ins, x.Common().StaticCallee())
+				for r := range keep {
+					if !p[r] {
+						delete(keep, r)
+					}
+				}
+			}
+		}
+	}
+	return keep
+}
+
+// loopDirectCellStores: references of cells the loop body (or closures it runs in place)
+// stores to directly.
+func (f *Frame) loopDirectCellStores(li *loopInfo) map[string]bool {
+	out := map[string]bool{}
+	for b := range li.blocks {
+		for _, ins := range b.Instrs {
+			st, ok := ins.(*ssa.Store)
+			if !ok {
+				continue
+			}
+			if v, ok := f.env[st.Addr]; ok {
+				if v.Addr != nil && v.Addr.Kind == aCell {
+					out[v.Addr.Ref.S] = true
+				} else if v.T.S != "" {
+					out[v.T.S] = true
+				}
+			} else {
+				// address not evaluated yet (defined inside the loop): be conservative for allocs/free vars
+				switch a := st.Addr.(type) {
+				case *ssa.FreeVar:
+					if fv, ok := f.env[a]; ok {
+						out[fv.T.S] = true
+					}
+				}
+			}
+		}
+		// closures created in the loop may store to captured cells when called
+		for _, ins := range b.Instrs {
+			if mc, ok := ins.(*ssa.MakeClosure); ok {
+				for _, bnd := range mc.Bindings {
+					if v, ok := f.env[bnd]; ok && v.T.S != "" {
+						out[v.T.S] = true
+					}
+				}
+			}
+		}
+	}
+	return out
 }
